@@ -102,7 +102,7 @@ class C06(common.Prop):
             "header): reads (bytes or stream, full or windowed), in-place mutations of earlier results through every public mutator, "
             "copies; then a probe read. Each result is snapshotted when created and re-dumped at the end; the probe is compared with "
             "a read in a fresh memo state; object identity of every header sub-object and memory sharing of body arrays are compared "
-            "pairwise. non-trivial = history contains a mutation or a read of a different file before the probe; distinct by content " "Plus as many histories inside the object-graph model's scope (byte sources, v0.2 files), compared pose by pose at the end of the history; mutators include in-place mask edits, attribute assignment of new objects and components.pop().")
+            "pairwise. non-trivial = history contains a mutation or a read of a different file before the probe; distinct by content " "Plus as many histories inside the object-graph model's scope (byte and stream sources, v0.2 files), compared pose by pose at the end of the history; mutators include in-place mask edits, attribute assignment of new objects and components.pop().")
     TRUSTED = ["Coq 8.16.1 kernel", "harness/translate_py.py", "extraction: ExtrOcamlBasic only; runner/driver.ml",
                "harness/posegen.py dump / canonicalisers; id()- and np.shares_memory-based aliasing graph"]
     ASSUMPTIONS = ["hashlib.md5 is injective on the header slices compared", "copy.deepcopy produces an object graph disjoint from its argument"]
@@ -152,7 +152,7 @@ class C06(common.Prop):
             probe = [rng.choice(self.names), rng.choice(["bytes", "bytes", "stream"]),
                      rng.choice([{}, {}, {"start_frame": 1, "end_frame": 2}])]
             yield {"steps": steps, "probe": probe}
-        # histories inside the object-graph model's scope (byte sources, v0.2 files, edits that keep the set of objects): compared
+        # histories inside the object-graph model's scope (byte and stream sources, v0.2 files, edits that keep the set of objects): compared
         # with it pose by pose - every pose handed out, as it is at the END of the history
         gnames = [x for x in self.names if x != "A01"]
         gmut = list(MUTATORS)
@@ -162,14 +162,15 @@ class C06(common.Prop):
             for _ in range(rng.randrange(2, 10)):
                 r = rng.random()
                 if nres == 0 or r < 0.4:
-                    steps.append(["read", rng.choice(gnames), "bytes", rng.choice([{}, {}, {"start_frame": 1}, {"end_frame": 2}, {"start_frame": 1, "end_frame": 3}])])
+                    steps.append(["read", rng.choice(gnames), rng.choice(["bytes", "bytes", "stream"]),
+                                  rng.choice([{}, {}, {"start_frame": 1}, {"end_frame": 2}, {"start_frame": 1, "end_frame": 3}])])
                     nres += 1
                 elif r < 0.8:
                     steps.append(["mutate", rng.randrange(nres), rng.choice(gmut)])
                 else:
                     steps.append(["copy", rng.randrange(nres)])
                     nres += 1
-            yield {"steps": steps, "probe": [rng.choice(gnames), "bytes", rng.choice([{}, {}, {"start_frame": 1, "end_frame": 2}])]}
+            yield {"steps": steps, "probe": [rng.choice(gnames), rng.choice(["bytes", "bytes", "stream"]), rng.choice([{}, {}, {"start_frame": 1, "end_frame": 2}])]}
 
     def features(self, case):
         kinds = sorted(set(s[0] for s in case["steps"]))
@@ -305,7 +306,7 @@ class C06(common.Prop):
         return ed
 
     def run_model(self, case, runner):
-        if case["probe"][1] == "bytes" and case["probe"][0] != "A01":
+        if case["probe"][0] != "A01":
             g = self.run_graph_model(case, runner)
             if g is not None:
                 self.graph_cases = getattr(self, "graph_cases", 0) + 1
@@ -323,9 +324,9 @@ class C06(common.Prop):
         ri = 0
         for i, st in enumerate(steps):
             if st[0] == "read":
-                if st[2] != "bytes" or st[1] == "A01":
+                if st[1] == "A01":
                     return None
-                ops.append([0, self.names.index(st[1]), pg.args_tree(st[3])])
+                ops.append([0 if st[2] == "bytes" else 5, self.names.index(st[1]), pg.args_tree(st[3])])
                 ok = impl_finals[ri]; ri += 1
                 handed_of_result.append(nh if ok else None)
                 nh += 1 if ok else 0
@@ -357,7 +358,7 @@ class C06(common.Prop):
                     return None          # some other edit changed which objects exist: outside the model
                 ops += self._cell_edits(k, d)
         f, kind, args = case["probe"]
-        ops.append([0, self.names.index(f), pg.args_tree(args)])
+        ops.append([0 if kind == "bytes" else 5, self.names.index(f), pg.args_tree(args)])
         rep = runner.ask([9, [self.files[n] for n in self.names], ops])
         flags, poses, cells, memo_cells = rep
         finals = [pg.pose_of_tree(t[0]) if len(t) == 1 else None for t in poses]
@@ -398,7 +399,7 @@ class C06(common.Prop):
         return None
 
     def teardown(self):
-        print("C06 object-graph model compared on %d histories (the others: stream sources / legacy twin / structural edits -> value-level model)"
+        print("C06 object-graph model compared on %d histories (the others: legacy twin / edits that change which objects exist -> value-level model)"
               % getattr(self, "graph_cases", 0))
 
     # ---------------------------------------------------------------- oracle
